@@ -4,7 +4,9 @@ import (
 	"fmt"
 	"go/ast"
 	"go/token"
+	"sort"
 	"strings"
+	"unicode"
 )
 
 // C11: integer fragments of funcsCommon.go (the bucket / bucketrange computation inside the
@@ -232,7 +234,166 @@ func init() {
 		c.Fingerprint("pkg/expressions/stdlib/funcsLookups.go", "buildLookupTable")
 		c.Fingerprint("pkg/humanize/numeric.go", "humanizeInt")
 		c.Fingerprint("pkg/humanize/units.go", "unitize")
+		c.c11Round4(&sb)
 		sb.WriteString("\nend Rare.Gen.C11\n")
 		return sb.String()
 	})
+}
+
+// ---- round 4 ----
+
+// charLitsOfCond collects the rune / byte literals (and named constants resolved through consts) that a
+// function compares a variable with using `==`, in source order without duplicates.
+func charLitsOfCond(n ast.Node, consts map[string]int64) []int64 {
+	var out []int64
+	seen := map[int64]bool{}
+	ast.Inspect(n, func(m ast.Node) bool {
+		be, ok := m.(*ast.BinaryExpr)
+		if !ok || be.Op != token.EQL {
+			return true
+		}
+		for _, side := range []ast.Expr{be.X, be.Y} {
+			var v int64
+			var has bool
+			if lit, ok := side.(*ast.BasicLit); ok && lit.Kind == token.CHAR {
+				v, has = IntLit(lit)
+			} else if id, ok := side.(*ast.Ident); ok {
+				v, has = consts[id.Name]
+			}
+			if has && !seen[v] {
+				seen[v] = true
+				out = append(out, v)
+			}
+		}
+		return true
+	})
+	return out
+}
+
+func leanNatList(l []int64) string {
+	parts := make([]string, len(l))
+	for i, v := range l {
+		parts[i] = fmt.Sprint(v)
+	}
+	return "[" + strings.Join(parts, ", ") + "]"
+}
+
+// dispatchEntry describes the value of one StandardFunctions entry: the builder identifier (through
+// KeyBuilderFunction(..) conversions), and for the operator lambdas the returned expression.
+func (c *Ctx) dispatchEntry(e ast.Expr) string {
+	for {
+		if call, ok := e.(*ast.CallExpr); ok {
+			if id, ok := call.Fun.(*ast.Ident); ok && id.Name == "KeyBuilderFunction" && len(call.Args) == 1 {
+				e = call.Args[0]
+				continue
+			}
+		}
+		break
+	}
+	switch v := e.(type) {
+	case *ast.Ident:
+		return v.Name
+	case *ast.CallExpr:
+		fn := c.Print(v.Fun)
+		args := []string{}
+		for _, a := range v.Args {
+			if fl, ok := a.(*ast.FuncLit); ok {
+				// the operator: every return expression of the lambda, joined
+				rets := []string{}
+				ast.Inspect(fl.Body, func(m ast.Node) bool {
+					if r, ok := m.(*ast.ReturnStmt); ok {
+						parts := []string{}
+						for _, x := range r.Results {
+							parts = append(parts, c.Print(x))
+						}
+						rets = append(rets, strings.Join(parts, ","))
+					}
+					if ifs, ok := m.(*ast.IfStmt); ok {
+						rets = append(rets, "if "+c.Print(ifs.Cond))
+					}
+					return true
+				})
+				args = append(args, strings.Join(rets, ";"))
+			} else {
+				args = append(args, c.Print(a))
+			}
+		}
+		return fn + "(" + strings.Join(args, "|") + ")"
+	}
+	return c.Print(e)
+}
+
+func (c *Ctx) c11Round4(sb *strings.Builder) {
+	// 1. the simple case mapping table of the toolchain rare is built with (package unicode, not /repo):
+	//    strings.ToUpper / ToLower = strings.Map(unicode.ToUpper / ToLower) over these ranges
+	fmt.Fprintf(sb, "\n/-- `unicode.CaseRanges` (Unicode %s): `(Lo, Hi, Delta[UpperCase], Delta[LowerCase])`; a delta of\n    `MaxRune+1` is `unicode.UpperLower` (alternating pairs). -/\n", unicode.Version)
+	sb.WriteString("def caseRanges : List (Nat × Nat × Int × Int) := [\n")
+	for i, cr := range unicode.CaseRanges {
+		sep := ","
+		if i == len(unicode.CaseRanges)-1 {
+			sep = "]"
+		}
+		fmt.Fprintf(sb, "  (%d, %d, %d, %d)%s\n", cr.Lo, cr.Hi, cr.Delta[unicode.UpperCase], cr.Delta[unicode.LowerCase], sep)
+	}
+	fmt.Fprintf(sb, "def maxRune : Nat := %d\ndef upperLower : Int := %d\n", unicode.MaxRune, unicode.UpperLower)
+
+	// 2. integer constants
+	intConst := func(lean, rel, name string) {
+		if v, ok := IntLit(c.Var(rel, name)); ok {
+			fmt.Fprintf(sb, "def %s : Int := %d\n", lean, v)
+		} else {
+			sb.WriteString(untranslatable(lean))
+		}
+	}
+	intConst("maxPrecision", "pkg/expressions/stdlib/util.go", "maxPrecision")
+	intConst("maxRepeatBytes", "pkg/expressions/stdlib/drawing.go", "maxRepeatBytes")
+	intConst("hfDecimals", "pkg/humanize/humanize.go", "Decimals")
+	intConst("baseSeparator", "pkg/humanize/numeric.go", "baseSeparator")
+	intConst("decimalSeparator", "pkg/humanize/numeric.go", "decimalSeparator")
+	intConst("arraySeparator", "pkg/expressions/stage.go", "ArraySeparator")
+
+	// 3. the characters selectField compares with (delimiters and the quote), csvItemEncode's special bytes
+	consts := map[string]int64{}
+	if v, ok := IntLit(c.Var("pkg/expressions/stage.go", "ArraySeparator")); ok {
+		consts["ArraySeparator"] = v
+	}
+	if fd := c.Func("pkg/expressions/stdlib/funcsStrings.go", "selectField"); fd != nil {
+		fmt.Fprintf(sb, "def selectFieldChars : List Nat := %s\n", leanNatList(charLitsOfCond(fd, consts)))
+	} else {
+		sb.WriteString(untranslatable("selectFieldChars"))
+	}
+
+	// 4. the dispatch table: helper name -> builder (and operator) as written in funcs.go
+	if cl, ok := c.Var("pkg/expressions/stdlib/funcs.go", "StandardFunctions").(*ast.CompositeLit); ok {
+		type kv struct{ k, v string }
+		var l []kv
+		for _, el := range cl.Elts {
+			if e, ok := el.(*ast.KeyValueExpr); ok {
+				if k, ok := StringLit(e.Key); ok {
+					l = append(l, kv{k, c.dispatchEntry(e.Value)})
+				}
+			}
+		}
+		sort.Slice(l, func(i, j int) bool { return l[i].k < l[j].k })
+		sb.WriteString("def dispatch : List (String × String) := [\n")
+		for i, e := range l {
+			sep := ","
+			if i == len(l)-1 {
+				sep = "]"
+			}
+			fmt.Fprintf(sb, "  (%s, %s)%s\n", leanStr(e.k), leanStr(e.v), sep)
+		}
+	} else {
+		sb.WriteString(untranslatable("dispatch"))
+	}
+	for _, fn := range []string{"kfUpper", "kfLower", "kfLen", "kfPrefix", "kfSuffix", "kfPercent", "kfBytesize", "kfBytesizeSi", "kfDownscale"} {
+		c.Fingerprint("pkg/expressions/stdlib/funcsStrings.go", fn)
+	}
+	for _, fn := range []string{"kfLike", "kfSwitch", "kfIf", "kfUnless", "kfNot", "kfAnd", "kfOr", "stringComparator", "arithmaticEqualityHelper"} {
+		c.Fingerprint("pkg/expressions/stdlib/funcsComparators.go", fn)
+	}
+	c.Fingerprint("pkg/expressions/stdlib/funcsPath.go", "kfPathManip")
+	c.Fingerprint("pkg/expressions/stdlib/funcsType.go", "kfIsInt")
+	c.Fingerprint("pkg/expressions/stdlib/funcsType.go", "kfIsNum")
+	c.Fingerprint("pkg/humanize/numeric.go", "humanizeFloat")
 }
